@@ -946,3 +946,74 @@ def oracle_C02(case: dict, real: dict, model: dict) -> List[str]:
             if seen_a != [p["pid"] for p in apreds]:
                 out.append(f"{m}: async predicates awaited {seen_a}, configured {[p['pid'] for p in apreds]}")
     return out
+
+
+# ---------------------------------------------------------------------------------------------
+# C16 default coercions: the validator versus the standard constructor (model-free)
+
+
+def oracle_C16(case: dict, real: dict, model: dict) -> List[str]:
+    import datetime as _dt
+    import decimal as _dec
+    import uuid as _uuid
+    out: List[str] = []
+    v = unwrap_user(case["v"])
+    x = real["xd"]
+    if v["k"] == "scalar" and v.get("coerce") == "default" and v["ty"] in ("decimal", "uuid", "date", "datetime") \
+            and not v.get("pre") and not v.get("preds") and not v.get("apreds"):
+        ty = v["ty"]
+        ctx = wire.Ctx()
+        px = wire.mk_value(ctx, x)
+        target = {"decimal": _dec.Decimal, "uuid": _uuid.UUID, "date": _dt.date, "datetime": _dt.datetime}[ty]
+        sources = {"decimal": (str, int), "uuid": (str,), "date": (str,), "datetime": (str,)}[ty]
+        ctor = {"decimal": _dec.Decimal, "uuid": _uuid.UUID, "date": _dt.date.fromisoformat,
+                "datetime": _dt.datetime.fromisoformat}[ty]
+        compat = sorted(["str", ty] + (["int"] if ty == "decimal" else []))
+        exp: Any
+        if type(px) is target:
+            exp = ("same", px)
+        elif type(px) in sources and type(px) is not bool:
+            try:
+                exp = ("parsed", ctor(px))
+            except (ValueError, _dec.InvalidOperation, TypeError):
+                exp = ("reject", None)
+        elif isinstance(px, sources):
+            exp = ("unspecified", None)    # subclasses of the *source* types are outside the claim
+        else:
+            exp = ("reject", None)
+        for m in MODES:
+            o = real[m]["out"]
+            if exp[0] == "unspecified" or "raised" in o:
+                continue
+            if exp[0] == "reject":
+                if "invalid" not in o:
+                    out.append(f"{m}: {ty} validator accepted a {type(px).__name__} the standard constructor does not parse / a type that is never coerced")
+                elif o["invalid"]["err"]["e"] != "coercion" or sorted(map(str, o["invalid"]["err"]["compat"])) != compat:
+                    out.append(f"{m}: rejection is not a coercion error with the declared compatible types")
+            else:
+                if "valid" not in o:
+                    out.append(f"{m}: {ty} validator rejected a value it must accept ({exp[0]})")
+                elif norm(o["valid"]) != norm(wire.canon_value(ctx, exp[1])):
+                    out.append(f"{m}: payload differs from what the standard constructor returns")
+                # canonical text round-trips
+                if exp[0] in ("same", "parsed") and not (ty == "decimal" and exp[1].is_snan()):
+                    text = exp[1].isoformat() if ty in ("date", "datetime") else str(exp[1])
+                    r2 = run_alone(v, case.get("env", []), {"t": "str", "s": [ord(c) for c in text]}, m)["out"]
+                    if "valid" not in r2 or (norm(r2["valid"]) != norm(wire.canon_value(ctx, exp[1]))
+                                             and not (ty == "decimal" and exp[1].is_nan())):
+                        out.append(f"{m}: canonical text {text!r} does not round-trip")
+    if v["k"] in ("utuple", "ntuple") and v.get("coerce") == "default":
+        for m in MODES:
+            o = real[m]["out"]
+            if "raised" in o:
+                continue
+            gate_rejected = "invalid" in o and o["invalid"]["vid"] == v["vid"] and o["invalid"]["err"]["e"] in ("coercion", "type")
+            if x["t"] in ("tuple", "list"):
+                if gate_rejected:
+                    out.append(f"{m}: tuple validator rejected a {x['t']} at its gate")
+            else:
+                if not gate_rejected:
+                    out.append(f"{m}: tuple validator let a {x['t']} past its gate")
+                elif o["invalid"]["err"]["e"] != "coercion" or sorted(map(str, o["invalid"]["err"]["compat"])) != ["list", "tuple"]:
+                    out.append(f"{m}: tuple gate rejection is not a coercion error naming list and tuple")
+    return out
